@@ -10,7 +10,7 @@ CLAIMS = {
     ),
     'C25': (
         'model_checking',
-        'TLC checks the C25 monitors exhaustively on spec/IPCStreams.tla (requests stream / monitor / stop / members / query with reused Seqs interleaved with user, member and query events: every header Seq is the Seq of a request sent, every record sits on a stream of its kind, event records are emitted events matching the filter of the registration covering them, in emission order, complete at stop / close unless a burst overflowed the buffer while the client did not read) and on spec/IPCQuery.tla (one query RPC: all orders of ack arrives / response arrives / loop iteration / deadline+close / client stalls and resumes: records are exactly acks and responses that were injected, exactly one done, nothing after it), and on TLC-simulated behaviours of both executed on a real agent through a raw msgpack client (replies injected through NotifyMsg in the real wire format; the yield-instrumented stream loop released one select iteration at a time); every received frame is validated by TLC.',
+        'TLC checks the C25 monitors exhaustively on spec/IPCStreams.tla (requests stream / monitor / stop / members / query with reused Seqs interleaved with user, member and query events: every header Seq is the Seq of a request sent, every record sits on a stream of its kind, event records are emitted events matching the filter of the registration covering them, in emission order, complete at close up to what fitted the 512-slot buffer when a burst overflowed it while the client did not read; the received bytes are well-formed msgpack header / header+body pairs; no reply header without a request; a slow-reader step class puts stream goroutines and the request handler into IPCClient.Send concurrently while a pipe write is in flight) and on spec/IPCQuery.tla (one query RPC: all orders of ack arrives / response arrives / loop iteration / deadline+close / client stalls and resumes: records are exactly acks and responses that were injected, exactly one done, nothing after it), and on TLC-simulated behaviours of both executed on a real agent through a raw msgpack client (replies injected through NotifyMsg in the real wire format; the yield-instrumented stream loop released one select iteration at a time); every received frame is validated by TLC.',
         'Trusts TLC, the yield instrumenter and the gate in front of the select, the goroutine-dump test for "blocked in the select / in Send", the raw client, the mirror of the query-response wire format, and that which ready case a Go select takes is uniformly random (a zero-value record after expiry shows with probability >= 1/2 per iteration, so the recorded finding is seen in nearly every run but not in every trace).',
         'TLA+ specs (IPCStreams, IPCQuery) + TLC exhaustive check of the monitors; TLC-simulated schedules replayed on the real agent (event streams end to end; query stream loop yield-instrumented and scheduled by the harness); TLC trace validation with property monitors on observed frames',
         '5 C25',
